@@ -166,6 +166,16 @@ func bitsFromASCII(p []byte) (WindowBits, bool) {
 		// RFC7692: a decimal integer value without leading zeroes.
 		return 0, false
 	}
+	if len(p) > 2 {
+		// Valid values are 8..15; longer numbers could also overflow below.
+		return 0, false
+	}
+	for _, c := range p {
+		if c < '0' || c > '9' {
+			// IntFromASCII() does not check that bytes are digits.
+			return 0, false
+		}
+	}
 	n, ok := httphead.IntFromASCII(p)
 	if !ok || !isValidBits(n) {
 		return 0, false
